@@ -244,6 +244,24 @@ def handleC04 (f : List String) : Res :=
       | _, _ => bad "c04-parse-ir"
   | _ => bad "c04-arity"
 
+/-- `c04b <IR dump> <impl Build: err | script dump>`: `Build` on a general unnamed IR program.
+    Correspondence only (the property quantifies over chain programs); the tags record which
+    builder branches the case exercises. -/
+def handleC04b (f : List String) : Res :=
+  match f with
+  | [irs, bld] =>
+    match pIR irs with
+    | none => bad "c04b-parse-ir"
+    | some ir =>
+      let r : Res := {}
+      let r := cmp "build" (showBuild (buildX ir)) bld r
+      let compiles := (refExpand ir).isSome
+      let zero := ir.any fun i => match i.op with | .shl _ s => s == 0 | _ => false
+      let dangling := !refNoDangling ir
+      let selfAdd := ir.any fun i => match i.op with | .add x y => x == y | _ => false
+      { r with tag := s!"ir,err={b01c (bld == "err")},compiles={b01c compiles},shift0={b01c zero},dangling={b01c dangling},selfadd={b01c selfAdd}" }
+  | _ => bad "c04b-arity"
+
 /-! ### C16 -/
 def handleC16 (f : List String) : Res :=
   match f with
